@@ -84,9 +84,14 @@ Definition swarm_const (tr : trace) (a b : N) : Prop :=
 Definition complete_adv (p : params) (tr : trace) (k a b : N) : Prop :=
   a <= b /\ b <= a + p_W p /\ swarm_const tr a b /\
   forall q, nearestb (p_r p) k (w_swarm (st_at tr a)) q = true -> sent_in tr k q a b.
-(* at time t the last complete advertisement of k is at most D old *)
+(* at time t the last complete advertisement of k is at most D old; a restart gives a key
+   that was fresh when the node was restarted another D from the restart (after a
+   restart the regions advertised within the last interval wait for their slot of the
+   rebuilt schedule, whose prefixes -- hence offsets -- may differ from the old ones) *)
 Definition fresh (p : params) (tr : trace) (k t : N) : Prop :=
-  exists a b, complete_adv p tr k a b /\ b <= t /\ t <= a + p_D p.
+  (exists a b, complete_adv p tr k a b /\ b <= t /\ t <= a + p_D p) \/
+  (exists rho a b, In (ERestart rho) tr /\ rho <= t /\ t <= rho + p_D p /\
+                   complete_adv p tr k a b /\ b <= rho /\ rho <= a + p_D p).
 
 Definition okb (k : N) (s : wst) : bool := w_up s && memN k (w_kept s).
 Definition requests (k : N) (e : ev) : bool :=
@@ -174,20 +179,25 @@ Definition complete_b (p : params) (ctl : trace) (sends : list (N * list N)) (k 
 Definition ads_of (p : params) (ctl : trace) (sends : list (N * list N)) (k : N) : list N :=
   filter (complete_b p ctl sends k) (dedupN (map fst sends)).
 
-Definition freshb (p : params) (ads : list N) (t : N) : bool :=
-  existsb (fun a => (a + p_W p <=? t) && (t <=? a + p_D p)) ads.
+Definition restarts_of (ctl : trace) : list N :=
+  flat_map (fun e => match e with ERestart t => [t] | _ => [] end) ctl.
+
+Definition freshb (p : params) (ads rs : list N) (t : N) : bool :=
+  existsb (fun a => (a + p_W p <=? t) && (t <=? a + p_D p)) ads ||
+  existsb (fun rho => (rho <=? t) && (t <=? rho + p_D p) &&
+                      existsb (fun a => (a + p_W p <=? rho) && (rho <=? a + p_D p)) ads) rs.
 
 Definition hypb (p : params) (ctl : trace) (k t : N) : bool :=
   all_in_range ctl (okb k) (t - p_G p) t.
 
 (* the only times at which "hypothesis holds and not fresh" can begin *)
 Definition crit (p : params) (ctl : trace) (ads : list N) : list N :=
-  p_G p :: map (fun a => a + p_D p + 1) ads ++ map (fun e => time e + p_G p) ctl.
+  p_G p :: map (fun a => a + p_D p + 1) (ads ++ restarts_of ctl) ++ map (fun e => time e + p_G p) ctl.
 
 Definition chk_fresh_key (p : params) (ctl tr : trace) (k : N) : bool :=
   let sends := sends_of k tr in
   let ads := ads_of p ctl sends k in
-  forallb (fun c => implb ((p_G p <=? c) && (c <=? p_end p) && hypb p ctl k c) (freshb p ads c))
+  forallb (fun c => implb ((p_G p <=? c) && (c <=? p_end p) && hypb p ctl k c) (freshb p ads (restarts_of ctl) c))
           (crit p ctl ads).
 
 Definition started_keys (tr : trace) : list N :=
@@ -256,3 +266,42 @@ Definition accepts_code (p : params) (tr : trace) : nat :=
   else if negb (chk_fresh p ctl tr) then 2%nat
   else 0%nat.
 Definition accepts (p : params) (tr : trace) : bool := Nat.eqb (accepts_code p tr) 0.
+
+(* ======================= PART B: pure pieces of provider.go ================================ *)
+From Verif.Model Require Import Trie Keyspace.
+
+(* ---- schedule arithmetic (provider.go:630-689) ------------------------------------------------
+   Durations are nanoseconds (N).  Go computes in int64: [reprovide_time] is exact while
+   I * 2^(min (len prefix) 24) < 2^63 (stated as a hypothesis of the theorems; with the
+   default 22 h interval the product overflows int64 for prefixes of 17 bits and more).
+   All of timeOffset / timeBetween / timeUntil divide by the reprovide interval: they are
+   only reached when it is positive (scheduleEnabled), the guard of every theorem. *)
+Definition bits_val (k : bits) : N := fold_left (fun acc (b : bool) => 2 * acc + (if b then 1 else 0)) k 0.
+Fixpoint xor_bits (a b : bits) : bits :=
+  match a, b with
+  | x :: a', y :: b' => xorb x y :: xor_bits a' b'
+  | _, _ => []
+  end.
+Definition max_prefix_size : nat := 24.
+
+(* reprovideTimeForPrefix: strconv.ParseInt(prefix XOR order[:len], 2) * interval / 2^len *)
+Definition reprovide_time (I : N) (order prefix : bits) : N :=
+  match prefix with
+  | [] => 0
+  | _ => let p := firstn max_prefix_size prefix in
+         I * bits_val (xor_bits p (firstn (length p) order)) / 2 ^ N.of_nat (length p)
+  end.
+(* timeOffset *)
+Definition time_offset (I cycle_start t : N) : N := (t - cycle_start) mod I.
+(* timeBetween(from, to) = (to-from+I-1)%I + 1, for offsets from, to < I *)
+Definition time_between (I from to : N) : N := (to + I - 1 - from) mod I + 1.
+(* schedulePrefixNoLock, justReprovided: min(reprovideTimeForPrefix, now + I + maxDelay) *)
+Definition next_time_just_reprovided (I max_delay now_off off : N) : N := N.min off (now_off + I + max_delay).
+
+(* ---- the schedule trie (provider.go:573-591, trie part of schedulePrefixNoLock) -----------------
+   "already scheduled" if a scheduled prefix is a prefix of the new one; otherwise the
+   scheduled superstrings are pruned and the prefix is added. *)
+Definition sched_add (t : trie N) (p : bits) (off : N) : res (trie N) :=
+  r <- find_prefix_of_key t p ;;
+  if snd r then Ok t
+  else t1 <- prune_subtrie t p ;; add_one t1 p off.
